@@ -254,6 +254,17 @@ fn c08_case(seed: u64, index: u64, md: &mut Model, rep: &mut Report) {
             Err(p) => fails.push(json!({"class": "merge-panic", "error": p, "arguments": k, "inputs": us.iter().map(|u| hex(u)).collect::<Vec<_>>()})),
         }
     }
+    // the v2 entry point merge_updates_v2 = decode_v2, the same merge, encode_v2: compared with the transcription between the v2 codecs
+    if pool2.len() >= 2 {
+        let k = r.range(2, 6) as usize;
+        let us: Vec<Vec<u8>> = (0..k).map(|_| r.pick(&pool2).clone()).collect();
+        if let Ok(Ok(merged)) = catch(|| yrs::merge_updates_v2(&us)) {
+            let m = md.ask(&format!("MRG merge2 {}", us.iter().map(|u| hex(u)).collect::<Vec<_>>().join(" ")));
+            rep.count("c08_v2_merges_compared_with_the_transcription");
+            let mut it = m.split(' ');
+            match (it.next(), it.next()) { (Some("ok"), Some(h)) if *h == hex(&merged) || md.ask(&format!("DEC update2 {}", h)) == md.ask(&format!("DEC update2 {}", hex(&merged))) => {}, _ => disag.push(json!({"kind": "merge_updates_v2 transcription", "model": m.chars().take(400).collect::<String>(), "impl": hex(&merged), "inputs": us.iter().map(|u| hex(u)).collect::<Vec<_>>()})) }
+        }
+    }
     let gaps = h.reps.iter().any(|x| has_gap(&x.doc));
     for trial in 0..4 {
         let k = r.range(2, (pool1.len() as u64).min(5)) as usize;
@@ -342,6 +353,15 @@ fn c08_case(seed: u64, index: u64, md: &mut Model, rep: &mut Report) {
                     _ => disag.push(json!({"kind": "diff_updates transcription", "model": m.chars().take(600).collect::<String>(), "impl": hex(&du), "update": hex(u), "sv": hex(&sv.encode_v1())})),
                 }
             }
+            if v2 {
+                let m = md.ask(&format!("DFF diff2 {} {}", hex(u), hex(&sv.encode_v2())));
+                rep.count("c08_v2_diffs_compared_with_the_transcription");
+                let mut it = m.split(' ');
+                match (it.next(), it.next()) {
+                    (Some("ok"), Some(h)) if *h == hex(&du) || md.ask(&format!("DEC update2 {}", h)) == md.ask(&format!("DEC update2 {}", hex(&du))) => {}
+                    _ => disag.push(json!({"kind": "diff_updates_v2 transcription", "model": m.chars().take(600).collect::<String>(), "impl": hex(&du), "update": hex(u), "sv": hex(&sv.encode_v2())})),
+                }
+            }
             let _ = if v2 { d1.apply_v2(u) } else { d1.apply_v1(u) };
             let r2 = if v2 { d2.apply_v2(&du) } else { d2.apply_v1(&du) };
             rep.count("c08_diffs");
@@ -358,6 +378,14 @@ fn c08_case(seed: u64, index: u64, md: &mut Model, rep: &mut Report) {
             let strip = |x: &str| x.split(" rest=").next().unwrap_or("").to_string();
             rep.count("c08_sv_from_update_compared_with_the_transcription");
             if !m.starts_with("ok") || strip(&m) != strip(&ms) { disag.push(json!({"kind": "state vector from update transcription", "model": m, "impl": ms, "update": hex(u)})); }
+        }
+    }
+    for u in pool2.iter() {
+        if let Ok(a) = yrs::encode_state_vector_from_update_v2(u) {
+            let (m, ms) = (md.ask(&format!("DFF sv2 {}", hex(u))), md.ask(&format!("DEC sv2 {}", hex(&a))));
+            let strip = |x: &str| x.split(" rest=").next().unwrap_or("").to_string();
+            rep.count("c08_v2_sv_from_update_compared_with_the_transcription");
+            if !m.starts_with("ok") || strip(&m) != strip(&ms) { disag.push(json!({"kind": "state vector from update (v2) transcription", "model": m, "impl": ms, "update": hex(u)})); }
         }
     }
     // a state vector that points between the two UTF-16 units of a surrogate pair (a Yjs peer can have such a clock): every unit of
